@@ -194,14 +194,19 @@ def dedup_prefixes(scs):
 
 
 def generate(scratch, spec, tier, seed, prop):
+    from concurrent.futures import ThreadPoolExecutor
     scs = []
     gstats = []
-    for g in spec["gen"][tier]:
+    gens = spec["gen"][tier]
+    tl = [g for g in gens if g["mode"] != "py"]
+    with ThreadPoolExecutor(max_workers=max(1, min(4, len(tl)))) as ex:
+        futs = {id(g): ex.submit(gen_tlc, scratch, g, seed, prop) for g in tl}
+    for g in gens:
         if g["mode"] == "py":
             part = g["fn"](seed, tier)
             st = {"mode": "py", "n": len(part)}
         else:
-            part, st = gen_tlc(scratch, g, seed, prop)
+            part, st = futs[id(g)].result()
             st["mode"] = g["mode"]
             if g["mode"] == "edges" or g.get("dedup"):
                 part = dedup_prefixes(part)
@@ -289,11 +294,13 @@ def match_finding(prop, clause, ev, scn, findings):
             continue
         if sig.get("where"):
             try:
-                if not eval(sig["where"], {"__builtins__": {"len": len, "any": any, "all": all, "set": set,
-                                                            "min": min, "max": max, "str": str, "int": int,
-                                                            "sorted": sorted, "isinstance": isinstance,
-                                                            "list": list, "dict": dict, "sum": sum, "abs": abs}},
-                            {"e": ev, "scn": scn, "ops": scn.get("ops", []), "par": scn.get("par", {})}):
+                env = {"__builtins__": {"len": len, "any": any, "all": all, "set": set, "min": min, "max": max,
+                                        "str": str, "int": int, "sorted": sorted, "isinstance": isinstance,
+                                        "list": list, "dict": dict, "sum": sum, "abs": abs, "range": range,
+                                        "enumerate": enumerate, "zip": zip, "bool": bool, "tuple": tuple},
+                       # in the globals, so that comprehensions / lambdas inside the expression see them
+                       "e": ev, "scn": scn, "ops": scn.get("ops", []), "par": scn.get("par", {})}
+                if not eval(sig["where"], env):
                     continue
             except Exception:
                 continue
@@ -326,12 +333,13 @@ def exec_and_judge(scratch, spec, scs, seed, tagname, race=False):
     return bad, notes, judged, st, trace_file, stderr
 
 
-def corrupt_selftest(scratch, spec, trace_file, prop):
-    """Binding self-test: corrupt one recorded field of a passing recording; the judge must object."""
+def corrupt_selftest(scratch, spec, trace_file, prop, skip_scns=()):
+    """Binding self-test: corrupt one recorded field of a passing recording; the judge must object.
+    Scenarios that already have failing events (known findings) are left out."""
     cor = spec.get("corrupt")
     if not cor:
         return None
-    evs = load_events(trace_file)
+    evs = [e for e in load_events(trace_file) if e.get("scn") not in skip_scns]
     # first scenarios only (keeps it cheap)
     cut = len(evs)
     seen = 0
@@ -348,10 +356,10 @@ def corrupt_selftest(scratch, spec, trace_file, prop):
     p = os.path.join(scratch, "selftest-trace.ndjson")
     write_ndjson(p, evs)
     bad, _, _, _ = judge(scratch, spec, p)
-    hit = [b for b in bad if b["line"] == idx + 1]
+    hit = [b for b in bad if b["line"] == idx + 1 and clauses_for(prop, b)]
     if not hit:
         raise Machinery("self-test: the judge accepted a corrupted recording (line %d)" % (idx + 1))
-    return {"done": True, "corrupted_line": idx + 1, "rejected_by": hit[0]["clauses"]}
+    return {"done": True, "corrupted_line": idx + 1, "rejected_by": clauses_for(prop, hit[0])}
 
 
 def run_check(prop, tier, seed):
@@ -406,8 +414,6 @@ def run_check(prop, tier, seed):
                 mine.append((b, cs))
 
         selftest = None
-        if not mine:
-            selftest = corrupt_selftest(scratch, spec, trace_file, prop)
 
         # 5. confirm + classify
         by_scn = {s["scn"]: s for s in scs}
@@ -421,6 +427,7 @@ def run_check(prop, tier, seed):
             groups = {}
             for b, cs in mine:
                 ev = events[b["line"] - 1]
+                ev["_info"] = b.get("info", {})
                 scn = by_scn.get(b["scn"], {})
                 for c in cs:
                     fd = match_finding(prop, c, ev, scn, findings)
@@ -446,6 +453,7 @@ def run_check(prop, tier, seed):
                     for r in cb:
                         if clause in clauses_for(prop, r):
                             e2 = cev[r["line"] - 1]
+                            e2["_info"] = r.get("info", {})
                             fd2 = match_finding(prop, clause, e2, one, findings)
                             if (fd2["id"] if fd2 else None) == fid:
                                 again = True
@@ -461,6 +469,9 @@ def run_check(prop, tier, seed):
                 else:
                     violations.append({"clause": clause, "count": len(items), "scenario": confirmed[0],
                                        "event": confirmed[1]})
+
+        if not violations and not unreproduced:
+            selftest = corrupt_selftest(scratch, spec, trace_file, prop, skip_scns=set(b["scn"] for b in bad))
 
         # 6. evidence
         nontriv = spec.get("nontrivial", lambda s: len(s.get("ops", [])) > 0)
@@ -523,7 +534,10 @@ def run_check(prop, tier, seed):
         log("OK property=%s tier=%s seed=%d scenarios=%d events=%d wall=%.1fs" % (prop, tier, seed, len(scs), judged, time.time() - t0))
         return 0
     finally:
-        shutil.rmtree(scratch, ignore_errors=True)
+        if os.environ.get("VERIF_KEEP"):
+            log("scratch kept: " + scratch)
+        else:
+            shutil.rmtree(scratch, ignore_errors=True)
 
 
 def replay(path):
